@@ -9,7 +9,7 @@ import ast
 
 from ..core import AnchorError, call_name, decorators, norm, short, own_nodes, kwarg, FUNC_TYPES
 from ..cfg import cfg_of
-from ..lib import calls_in, stmts_in, gate, must_pass, node_has, params, none_accept, none_safe_chain
+from ..lib import calls_in, stmts_in, gate, must_pass, node_has, params, none_accept, none_safe_chain, if_test_texts
 from . import c03
 
 
@@ -118,7 +118,7 @@ def rule_d(repo, chk):
     chk.clause('C18.d', 'Script.get_context moves to the previous leaf when the cursor is before the leaf or on the end marker, applies the header '
                         'special case (n.start_pos < pos <= n.children[-1].start_pos) before falling back to create_context, and walks to a named context')
     f = repo.find('jedi.api', 'Script.get_context')
-    tests = [norm(n.test) for n in own_nodes(f) if isinstance(n, ast.If)]
+    tests = if_test_texts(f)
     ok = "leaf.start_pos > pos or leaf.type == 'endmarker'" in tests
     chk.ob('C18.d', ok, f, 'the previous leaf is taken when the cursor is in a prefix OR on the end marker (an indented empty last line belongs to its block)', str(tests))
     ok = 'n is not None and n.start_pos < pos <= n.children[-1].start_pos' in tests
